@@ -208,7 +208,7 @@ impl Monitor for C05 {
         vec![("miri", 1), ("schedules", tier.pick(24, 600)), ("wide", tier.pick(8, 80)), ("stacks", tier.pick(8, 200)), ("images", tier.pick(16, 200))]
     }
     fn rule(&self) -> &'static str {
-        "case = a network with every layer kind and 1..4 channels (convolution, feedback block of convolution+deconvolution with 2..4 repetitions, with and without input / output skips, deconvolution, max-pool, five dense layers, a skip connection across the block, two skip connections sharing their source, a loop connection over a dense layer, dropout on random layers), 24..64 training samples, batch 1..32, 2 epochs with 150..300 or 500..1300 validation inputs (2..21 chunks of 64, not a multiple of 64), followed by validate() and predict_batch() on the same inputs. The identical call is executed in a 1-thread pool without delays (reference) and in dedicated rayon pools of 2, 3, 4, 7, 16, 33 and 64 threads with the delay injector armed (random 0..300 us stalls at the entry of every per-sample forward pass, two delay seeds per pool size), plus once in an 8-thread pool while 16 busy threads starve the machine, plus a repetition of the reference, plus two runs (1 and 4 threads) in which the evaluation tensors are stored elsewhere and in another order in memory while the reference vectors list them in the same logical order; plus the same call with a target vector 1..3 entries longer than the input vector in pools of 1, 2, 3, 4 and 7 threads, compared among themselves (not judged if the library refuses such a call). Every output - per-epoch train/validation loss and accuracy, all final weights, the validate() result, every predict_batch() output in order - must be bit-identical to the reference. Evidence that schedules differed: per training group the sample->worker assignment and the order in which the per-sample tasks started, taken from the event log; distinct = distinct (case, assignment/start-order) schedules observed. stacks: the same protocol on stacks of 3..6 convolutions / deconvolutions with 1..5 input channels and 1..5 filters each (more channels than filters, as many, fewer), kernels 1 or 3, paddings 0..2 and any activation incl. soft-max per layer (consecutive layers work on intermediate tensors of equal shape with different margins), max-pool, two dense layers. wide: the same protocol on networks whose dense layers have 4096..8200 inputs or outputs, and (every second case) on networks that begin with a convolution or deconvolution with a wide kernel (1x8, 1x9, 3x8, 3x11, 2x16, 1x17, 1x33; rows of 11..64 elements) followed by a 1x8 convolution with stride 2: sums over 8..100 products per output element. images: stacks that END in a convolution with 5..16 filters (image-shaped predictions and targets, so the objective sums over channels), trained without validation data (validate() needs a dense output layer) and evaluated by predict_batch(). Miri leg: /verif/miri under -Zmiri-many-seeds (4 seeds quick, 32 thorough): every seed must print the same bit patterns and Miri must report no undefined behaviour or data race."
+        "case = a network with every layer kind and 1..4 channels (convolution, feedback block of convolution+deconvolution with 2..4 repetitions, with and without input / output skips, deconvolution, max-pool, five dense layers, a skip connection across the block, two skip connections sharing their source, a loop connection over a dense layer, dropout on random layers), 24..64 training samples, batch 1..32, 2 epochs (in every second case with a progress line printed per epoch) with 150..300 or 500..1300 validation inputs (2..21 chunks of 64, not a multiple of 64), followed by validate() and predict_batch() on the same inputs. The identical call is executed in a 1-thread pool without delays (reference) and in dedicated rayon pools of 2, 3, 4, 7, 16, 33 and 64 threads with the delay injector armed (random 0..300 us stalls at the entry of every per-sample forward pass, two delay seeds per pool size), plus once in an 8-thread pool while 16 busy threads starve the machine, plus a repetition of the reference, plus two runs (1 and 4 threads) in which the evaluation tensors are stored elsewhere and in another order in memory while the reference vectors list them in the same logical order; plus the same call with a target vector 1..3 entries longer than the input vector in pools of 1, 2, 3, 4 and 7 threads, compared among themselves (not judged if the library refuses such a call). Every output - per-epoch train/validation loss and accuracy, all final weights, the validate() result, every predict_batch() output in order - must be bit-identical to the reference. Evidence that schedules differed: per training group the sample->worker assignment and the order in which the per-sample tasks started, taken from the event log; distinct = distinct (case, assignment/start-order) schedules observed. stacks: the same protocol on stacks of 3..6 convolutions / deconvolutions with 1..5 input channels and 1..5 filters each (more channels than filters, as many, fewer), kernels 1 or 3, paddings 0..2 and any activation incl. soft-max per layer (consecutive layers work on intermediate tensors of equal shape with different margins), max-pool, two dense layers. wide: the same protocol on networks whose dense layers have 4096..8200 inputs or outputs, and (every second case) on networks that begin with a convolution or deconvolution with a wide kernel (1x8, 1x9, 3x8, 3x11, 2x16, 1x17, 1x33; rows of 11..64 elements) followed by a 1x8 convolution with stride 2: sums over 8..100 products per output element. images: stacks that END in a convolution with 5..16 filters (image-shaped predictions and targets, so the objective sums over channels), trained without validation data (validate() needs a dense output layer) and evaluated by predict_batch(). Miri leg: /verif/miri under -Zmiri-many-seeds (4 seeds quick, 32 thorough): every seed must print the same bit patterns and Miri must report no undefined behaviour or data race."
     }
     fn assumptions(&self) -> Vec<&'static str> {
         vec![
@@ -354,7 +354,9 @@ impl Monitor for C05 {
                     // (validate() needs a dense output layer: image-shaped outputs are trained
                     // without validation data and evaluated by predict_batch only)
                     let validation: Option<(&Vec<&Tensor>, &Vec<&Tensor>, i32)> = if image_out { None } else { Some((vxr, vtr, 100)) };
-                    let (tl, vl, va) = net.learn(&xr, &tr, validation, batch, 2, None);
+                    // (every second case asks for a progress line per epoch: what is computed must
+                    // not depend on it, in pools of any size)
+                    let (tl, vl, va) = net.learn(&xr, &tr, validation, batch, 2, if idx % 2 == 1 { Some(1) } else { None });
                     let (l, a) = if image_out { (0.0, 0.0) } else { net.validate(vxr, vtr, 0.1) };
                     let pb = net.predict_batch(vxr);
                     let mut bits: Vec<u32> = Vec::new();
